@@ -472,3 +472,13 @@ def program(packages=('bumble',), root=None) -> Program:
     if key not in _PROGRAMS:
         _PROGRAMS[key] = Program(root or REPO, packages)
     return _PROGRAMS[key]
+
+
+def slice_parts(e):
+    """`x[a:b]` -> (norm(x), norm(a) or '0', norm(b) or None); else None."""
+    if isinstance(e, ast.Subscript) and isinstance(e.slice, ast.Slice) and e.slice.step is None:
+        lo = e.slice.lower
+        lo_s = '0' if lo is None or (isinstance(lo, ast.Constant) and lo.value == 0) else norm(lo)
+        hi = e.slice.upper
+        return norm(e.value), lo_s, (norm(hi) if hi is not None else None)
+    return None
